@@ -257,6 +257,50 @@ def run(chk, replay=None):
     chk.sample({'record': traces[7], 'origin': metas[7]['origin']})
     chk.sample({'record': traces[-1], 'origin': metas[-1]['origin']})
 
+    # ---------------------------------------------------------------- the same round trip in a process with another locale
+    # names outside ASCII (model and catalog names in their own language) written and read back by an interpreter whose
+    # locale encoding is not UTF-8 (LC_ALL=C, UTF-8 mode off) - the encoding of a process the library does not choose
+    import json
+    import subprocess
+    import sys
+    child = r'''
+import json, os, sys
+import csep
+from csep.models import EvaluationResult, CatalogNumberTestResult
+names = [("ETAS M\u00e9xico", "cat\u00e1logo SSN"), ("\u30e2\u30c7\u30eb", "\u89b3\u6e2c"), ("plain", "ascii"), ("Gr\u00f6\u00dfe \u2264 5", "\u00b5")]
+out = []
+d = sys.argv[1]
+for i, (sim, obs) in enumerate(names):
+    for cls in (EvaluationResult, CatalogNumberTestResult):
+        r = cls(test_distribution=[1.0, 2.5], name="N-test " + sim, observed_statistic=2.0, quantile=(0.25, 0.75), status="normal",
+                sim_name=sim, obs_name=obs, min_mw=4.95)
+        path = os.path.join(d, "loc%d_%s.json" % (i, cls.__name__))
+        try:
+            csep.write_json(r, path)
+            b = csep.load_evaluation_result(path)
+            if (type(b).__name__, b.sim_name, b.obs_name, b.name) != (cls.__name__, sim, obs, "N-test " + sim):
+                out.append([cls.__name__, ascii(sim), "names differ: " + ascii((b.sim_name, b.obs_name, b.name))])
+        except Exception as e:
+            out.append([cls.__name__, ascii(sim), "raised " + type(e).__name__])
+import locale
+print("RESULT " + json.dumps({"encoding": locale.getpreferredencoding(False), "bad": out}))
+'''
+    env = dict(os.environ, LC_ALL='C', LANG='C', PYTHONUTF8='0', PYTHONCOERCECLOCALE='0', PYTHONIOENCODING='ascii:backslashreplace')
+    pr = subprocess.run([sys.executable, '-B', '-X', 'utf8=0', '-c', child, chk.tmp], env=env, capture_output=True, text=True, timeout=300)
+    line = next((ln for ln in pr.stdout.splitlines() if ln.startswith('RESULT ')), None)
+    if line is None:
+        raise MachineryError('locale child gave no result: %s' % (pr.stderr[-600:],))
+    rep = json.loads(line[7:])
+    chk.count(8)
+    chk.notes['locale_child_encoding'] = rep['encoding']
+    if rep['encoding'].lower().replace('-', '') in ('utf8',):
+        chk.log('locale child still runs in UTF-8 (%s): the locale round trip says nothing' % rep['encoding'])
+    for cname, sim, why in rep['bad']:
+        chk.violation('%s:%s:another locale' % (cname, why.split(':')[0].split(' ')[0] + ' ' + why.split(' ')[1].rstrip(':') if ' ' in why else why),
+                      {'class': cname, 'sim_name': sim, 'what': why, 'locale_encoding': rep['encoding']})
+    if not rep['bad']:
+        chk.nontrivial('locale|%s' % rep['encoding'])
+
     # ---------------------------------------------------------------- regions: dictionary round trip
     from vh.drivers import c01
     res = chk.tlc('GenCartRegion', 'Genq_CartRegion.cfg', workers=1, coverage=False, count_states=False, timeout=1500)
